@@ -13,9 +13,9 @@ import (
 )
 
 type Violation struct {
-	Monitor string `json:"monitor"`
-	Case    int    `json:"case"`
-	Detail  string `json:"detail"`
+	Monitor string   `json:"monitor"`
+	Case    int      `json:"case"`
+	Detail  string   `json:"detail"`
 	Ops     []string `json:"ops,omitempty"`
 }
 
@@ -34,6 +34,22 @@ type Rec struct {
 	curNontriv bool
 	MaxSamples int
 	Quiet      bool // replay mode: print obs to stdout only
+	pendF      *os.File
+}
+
+// Pending records the op line that is about to be executed, so that a fatal error of the
+// process (out of memory, stack overflow — not recoverable in Go) leaves the failing input behind.
+func (r *Rec) Pending(op string) {
+	if r.pendF == nil {
+		f, err := os.Create(filepath.Join(r.dir, "pending.txt"))
+		if err != nil {
+			return
+		}
+		r.pendF = f
+	}
+	b := []byte(op + "\n")
+	r.pendF.Truncate(0)
+	r.pendF.WriteAt(b, 0)
 }
 
 func New(dir string) (*Rec, error) {
@@ -133,6 +149,10 @@ func (r *Rec) Close() error {
 	r.obs.Flush()
 	r.opsF.Close()
 	r.obsF.Close()
+	if r.pendF != nil {
+		r.pendF.Close()
+		os.Remove(filepath.Join(r.dir, "pending.txt"))
+	}
 	st := Stats{Lines: r.Lines, Cases: r.Cases, DistinctNontrivial: len(r.distinct), Hist: r.Hist, Samples: r.Samples, Violations: r.Violations, Extra: r.Extra}
 	if st.Violations == nil {
 		st.Violations = []Violation{}
